@@ -947,8 +947,20 @@ fn step_nocheck_inner<const N: usize>(g: &mut Sodg<N>, m: &mut Model, op: &Op) -
         (Op::MergeFail(..), Ret::Merge(Err(_))) => adopt_real_state(g, m)?,
         (Op::NextId | Op::AddNext | Op::Merge(..) | Op::MergeFail(..), _) => return Err(format!("{} did not return what it returned before", op.text())),
         _ => {
+            // the model followed this history when it was discovered; if it cannot now, an earlier call
+            // of the replay answered differently than the first time
+            let applicable = match op {
+                Op::Add(_) | Op::CloneSwap | Op::CloneFromSwap | Op::ReloadSwap => true,
+                _ => m.enabled(op, 0) || matches!(op, Op::Script(..)),
+            };
+            if !applicable {
+                return Err(format!("{} cannot be applied to the model any more: an earlier call of this history answered differently than when the history was discovered", op.text()));
+            }
             m.apply(op);
         }
+    }
+    if !errs.is_empty() {
+        return Err(format!("{}: {}", op.text(), errs.join("; ")));
     }
     Ok(())
 }
@@ -1287,7 +1299,9 @@ fn run_n<const N: usize>(cfg: &HxCfg) -> HxResult {
                             let idx = i as u32;
                             match materialize::<N>(cfg, roots_ref, trail_ref, depth, idx, &mut cache) {
                                 Ok((g0, m0)) => expand_state(cfg, ops_ref, seen_ref, &g0, &m0, idx, expand, (roots_ref, trail_ref, depth), &mut out),
-                                Err(e) => errors.lock().unwrap().push(format!("state {} of level {depth} could not be re-materialised: {e}", hist_text(&history_of(roots_ref, trail_ref, depth, idx)))),
+                                // the same calls, made again on a fresh graph in this process, went another way than
+                                // when the state was discovered: a function of the history alone cannot do that
+                                Err(e) => out.findings.push((idx, None, Finding { kind: "history-does-not-repeat".to_string(), tags: vec![cfg.prop, "C19"], detail: format!("when this history was executed once more on a fresh graph (to continue from the state it leads to) it did not go the way it went when it was discovered: {e}. The answers depend on something outside the graph's own history (state shared between objects through the thread, the process or an address)"), aux: None })),
                             }
                         }
                         *outs[ci].lock().unwrap() = Some(out);
